@@ -12,6 +12,7 @@ The element vocabulary of Markdown as ONE per-node predicate (specification side
 * `inlineTags`: the elements the inline stage creates.
 * `RGood` / `RGoodList`: the vocabulary condition on the items the strict reader `Ser.readForest` returns.
 * `inner fmt root`: the serialisation of the content of the wrapper `div`.
+* `entRef e`: `e` is one entity reference (shape of the raw-HTML stash entries for `<`-free text).
 
 `Good n` is the conjunction of `Vocab.vocabNode n` and `Vocab.voidOk n` of `MdVerif/Spec/Vocab.lean` (the block-stage
 formulation); `Lemmas/InlineVocab.lean` proves the equivalence (`good_iff_vocab`).
@@ -83,5 +84,11 @@ end
     `<div>` … `</div>` off (before the surrounding white space is stripped) -/
 def inner (fmt : Ser.Fmt) (root : Node) : Str :=
   (if Node.truthy root.text then Ser.escCdata (root.text.getD []) else []) ++ Ser.serializeList fmt root.children
+
+/-- a single entity reference `&…;` as the serializer's `RE_AMP` accepts it (`Ser.entLen` consumes the whole body) -/
+def entRef (e : Str) : Bool :=
+  match e with
+  | '&' :: b => Ser.entLen b == some b.length
+  | _ => false
 
 end MdVerif.Vocab2
